@@ -9,10 +9,10 @@ CFG = {
                    "(tape-chosen batch size 1/7/64/1024), one with it disabled; every generated request (projections, criteria trees, time bounds, order by time or index with offset/limit, "
                    "group-by/aggregation/top-N, requests the dispatcher refuses) is answered by both and the canonical bit-exact responses (or error classes) must be equal. "
                    "Part layouts come from real flushes and merges driven by the fake clock"),
-    "level_note": "scenario cluster-stream-twins runs the stream twins on two CLUSTERS (1 liaison + 1-3 data nodes over simnet): with the flag on the data nodes answer the liaison with columnar frames (stream wire mode raw), with the flag off with protobuf elements; measure requests include group-by without aggregation and null holes in group-by tags / aggregated fields; single node only: the columnar frame wire between data node and coordinator is not exercised (no cluster harness); trusted: the canonical rendering; unordered queries with a limit are compared by size only, ordered ones by sequence",
+    "level_note": "scenario trace-twins feeds two standalone trace nodes (vectorized on with batch size 1/7/64/1024, and off) the same span batches and clock steps and compares queries by trace id, by id list and ordered by the dur/timestamp index rules (asc/desc, optional range condition, optional limit, projections): same traces, same spans; scenario cluster-stream-twins runs the stream twins on two CLUSTERS (1 liaison + 1-3 data nodes over simnet): with the flag on the data nodes answer the liaison with columnar frames (stream wire mode raw), with the flag off with protobuf elements; measure requests include group-by without aggregation and null holes in group-by tags / aggregated fields; single node only: the columnar frame wire between data node and coordinator is not exercised (no cluster harness); trusted: the canonical rendering; unordered queries with a limit are compared by size only, ordered ones by sequence",
     "budget": {"quick": 60, "thorough": 1200},
     "rule": ("each seed draws a schema, 2-8 history steps, 4-12 requests of all shapes; both twins replay the history and answer. Non-trivial = all answers equal; distinct = canonical event-log digests"),
-    "expected_probes": ["reach.frames_from_several_data_nodes", "reach.aggregate_over_null_field", "reach.request_refused_or_failed"],
+    "expected_probes": ["reach.trace_twins_compared", "reach.frames_from_several_data_nodes", "reach.aggregate_over_null_field", "reach.request_refused_or_failed"],
     "real_vs_stub": {
         "real": ["pkg/query/vectorized/** (measure, stream plans, dispatch, batches)", "banyand/measure query_vectorized.go, banyand/stream query_vectorized.go", "row path: pkg/query/logical/** + executors", "banyand/query processors (dispatch/fallback)"],
         "stub": ["metadata registry (simmeta)", "gRPC transport", "clock (testing/synctest)", "no liaison<->data node frames"],
